@@ -261,7 +261,7 @@ def _worker_task(task):
                             summ["validated"] = "native run raised " + err
                         elif S.assume_failed:
                             summ["validated"] = "native run left the assumed domain"
-                        elif S.failed:
+                        elif [c for c in S.failed if c not in {k["check"] for k in r.knowns}]:
                             summ["validated"] = "native run failed checks %s that were discharged symbolically" % S.failed
                         elif S.observations != [(k, v) for k, v in r.observations]:
                             summ["validated"] = "observations differ: symbolic %r native %r" % (
